@@ -211,10 +211,55 @@ def gen_directed_cancel(r):
             'sched': [r.randrange(0, 60) for _ in range(budget)] if r.random() < 0.5 else [0] * budget}
 
 
+POLLS = [('y', 0), ('y', 1), ('y', 50), ('w',)]
+
+
+def exc_probe(kind, order, nthrow=1, nplain=1, via_worker=False):
+    """deterministic probe family of C05: some tasks throw, ALL tasks finish, then the set is polled with tryWait(0) / tryWait(1) / tryWait(large) /
+    wait() in the given order (every poll observes completion; the first one has to rethrow)"""
+    conc, heavy = {'tsk': (0, 0), 'light': (1, 0), 'heavy': (1, 1)}[kind]
+    subs = [('s', 0, 1, 0, [('t',)])] * nthrow + [('s', 0, 1, 0, [])] * nplain
+    polls = [(('y', 0, p[1]) if p[0] == 'y' else ('w', 0)) for p in order]
+    run_all = [('k',)] * (nthrow + nplain)
+    if via_worker:
+        threads = [(0, 0, subs + polls), (1, 0, run_all)]
+        sched = [0] * (1 + 2 * (nthrow + nplain)) + [1] * 60 + [0] * 60       # submit everything, let the worker finish everything, then poll
+    else:
+        threads = [(0, 0, subs + run_all + polls)]
+        sched = [0] * 120
+    return {'budget': 120, 'nthr': 1, 'plf': 32, 'wr': 0, 'sets': [(conc, heavy, 4, -1, 0)], 'threads': threads, 'sched': sched[:120]}
+
+
+def exc_probes():
+    import itertools
+    out = []
+    for kind in ('tsk', 'light', 'heavy'):
+        for order in itertools.permutations(POLLS, 2):
+            out.append(exc_probe(kind, list(order) + [('w',)]))
+        out.append(exc_probe(kind, [('y', 0), ('y', 0), ('y', 1), ('w',)], nthrow=2))
+        out.append(exc_probe(kind, [('y', 0), ('w',)], via_worker=True))
+        out.append(exc_probe(kind, [('y', 1), ('y', 0), ('w',)], via_worker=True))
+    return out
+
+
+def gen_directed_exc(r):
+    """random member of the probe family: throwing and plain tasks, all executed, then a random poll sequence"""
+    kind = r.choice(['tsk', 'light', 'heavy'])
+    order = [r.choice(POLLS) for _ in range(r.randint(1, 4))]
+    c = exc_probe(kind, order, nthrow=r.choice([1, 1, 2]), nplain=r.choice([0, 1, 2]), via_worker=r.random() < 0.5)
+    if r.random() < 0.5:
+        c['sched'] = [r.randrange(0, 60) for _ in range(c['budget'])]
+        if len(c['threads']) == 2:
+            c['threads'][1] = (1, 0, c['threads'][1][2] + [('k',)] * 2)
+    return c
+
+
 def gen_case(r, flavour='mixed'):
     """flavours bias the generator at the case splits of the proofs: 'barrier' (C02), 'cancel' (C04), 'exc' (C05), 'force' (C47)"""
     if flavour == 'cancel' and r.random() < 0.4:
         return gen_directed_cancel(r)
+    if flavour == 'exc' and r.random() < 0.35:
+        return gen_directed_exc(r)
     nthr = r.choice([0, 1, 1, 2, 2, 3])
     if flavour in ('force',) and r.random() < 0.8:
         nthr = r.choice([1, 1, 2, 3])
@@ -261,7 +306,7 @@ def gen_case(r, flavour='mixed'):
             elif x < 0.75:
                 ops.append(('w', s) if waiter.setdefault(s, t) == t else ('k',))
             elif x < 0.83:
-                ops.append(('y', s, r.choice([0, 1, 2, 3])) if waiter.setdefault(s, t) == t else ('k',))
+                ops.append(('y', s, r.choice([0, 0, 1, 2, 3, 50])) if waiter.setdefault(s, t) == t else ('k',))
             elif x < (0.97 if flavour == 'cancel' else 0.88):
                 if s in has_kids and cancellers.setdefault(s, t) != t:
                     ops.append(('k',))
@@ -273,7 +318,10 @@ def gen_case(r, flavour='mixed'):
             if (flavour in ('barrier', 'exc', 'mixed') and r.random() < 0.8) if rep == 0 else (flavour == 'exc' and r.random() < 0.5):
                 cand = [s for s in mine if waiter.setdefault(s, t) == t]
                 if cand:
-                    ops.append(('w', r.choice(cand)))
+                    sw = r.choice(cand)
+                    if flavour == 'exc' and r.random() < 0.5:
+                        ops.append(('y', sw, r.choice([0, 0, 1, 50])))
+                    ops.append(('w', sw))
         dep0 = 32 if r.random() < 0.05 else 0
         threads.append((int(r.random() < 0.25), dep0, ops))
     budget = 110
